@@ -574,7 +574,7 @@ def standin(tier, seed):
         nontriv.add((pat, chunk, tuple(x[0] for x in prog), len(results)))
     samples.append({"stream": "GET / HTTP/1.1\\r\\n\\r\\nbody", "program": "read_until(b'\\r\\n\\r\\n'); read_bytes(4)", "results": ["GET / HTTP/1.1\\r\\n\\r\\n", "body"]})
     return {"evaluations": evals, "distinct_nontrivial": len(nontriv), "failures": failures[:3], "samples": samples,
-            "rule": "%d runs: a random stream (0-5000 bytes over 5 alphabets) arriving all at once / byte by byte / in random pieces, some before the first request, read_chunk_size 1-4096, and a program "
+            "rule": "%d runs: a random stream (0-20000 bytes over 5 alphabets; byte-wise arrivals up to 1500) arriving all at once / byte by byte / in random pieces, some before the first request, read_chunk_size 1-65536, and a program "
                     "of 1-6 requests (read_bytes, partial, read_into, read_into partial, read_until with / without max_bytes, read_until_regex with / without max_bytes, read_until_close) on the real "
                     "BaseIOStream over the in-memory transport, the peer closing at the end: every result equals the reference reading of the remaining stream (partial reads: a non-empty prefix within "
                     "the size), the results concatenate to a prefix of the stream, errors only where the reference cannot satisfy the request, max_bytes never exceeded" % N,
